@@ -180,7 +180,13 @@ impl<'tcx> Cx<'tcx> {
                         let _ = write!(s, ",\"scalar\":\"{:#x}\"", bits);
                     }
                 } else {
-                    let _ = write!(s, ",\"ptr\":true");
+                    let inner = self.const_value_json(ConstValue::Scalar(sc), ty);
+                    // splice the pointee description (everything after the type) into this object
+                    if let Some(pos) = inner.find(",\"refto\"").or_else(|| inner.find(",\"fn\"")) {
+                        s.push_str(&inner[pos..inner.len() - 1]);
+                    } else {
+                        let _ = write!(s, ",\"ptr\":true");
+                    }
                 }
             }
             Some(ConstValue::ZeroSized) => {
@@ -250,6 +256,19 @@ impl<'tcx> Cx<'tcx> {
                             if let ty::Closure(cd, _) = t0.kind() {
                                 let _ = write!(s, ",\"closure\":{}", esc(&self.path(*cd)));
                             }
+                        }
+                    } else if let rustc_middle::mir::interpret::GlobalAlloc::Memory(_) = self.tcx.global_alloc(prov.alloc_id()) {
+                        // reference to constant memory (`&CONST_ITEM`): export the pointee
+                        let mut done = false;
+                        if let ty::Ref(_, inner, _) = ty.kind() {
+                            if matches!(inner.kind(), ty::Adt(..) | ty::Array(..) | ty::Tuple(..)) {
+                                let cv = ConstValue::Indirect { alloc_id: prov.alloc_id(), offset: _off };
+                                let _ = write!(s, ",\"refto\":{}", self.const_value_json(cv, *inner));
+                                done = true;
+                            }
+                        }
+                        if !done {
+                            let _ = write!(s, ",\"ptr\":true");
                         }
                     } else {
                         let _ = write!(s, ",\"ptr\":true");
